@@ -16,7 +16,7 @@
    need the repaired behaviour carry it as a hypothesis ([v_reject_oversize v = true],
    [delivers v wbuf]); the pinned behaviour [current] refutes them: Findings/F_C14.v. *)
 From Coq Require Import ZArith NArith Bool String Ascii List Arith.
-From Ice Require Import Model.PrioSpec Model.Framing Gen.Consts Proofs.FramingProofs.
+From Ice Require Import Model.PrioSpec Model.Framing Gen.Consts Proofs.FramingProofs Proofs.FrameUnique.
 Import ListNotations.
 Local Open Scope nat_scope.
 
@@ -39,6 +39,15 @@ Theorem C14_roundtrip : forall (ps : list bytes) (cap : nat) (cs : list bytes) (
              /\ dead s'.
 Proof. exact roundtrip. Qed.
 Print Assumptions C14_roundtrip.
+
+(* the framing is uniquely decodable: two packet lists (each packet at most 65535 bytes and at most
+   cap) whose frames concatenate to the same byte stream are the same list -- packet boundaries are
+   a function of the bytes alone, which is what "however the stream is segmented or coalesced" needs *)
+Theorem C14_frames_uniquely_decodable : forall (cap : nat) (ps qs : list bytes),
+  Forall (fits_in cap) ps -> Forall (fits_in cap) qs ->
+  concat (map frame_raw ps) = concat (map frame_raw qs) -> ps = qs.
+Proof. exact frames_uniquely_decodable. Qed.
+Print Assumptions C14_frames_uniquely_decodable.
 
 (* For EVERY well-formed stream (any bytes, any chunking, any final error, with or without bytes
    delivered together with the error) and every capacity, one readStreamingPacket:
